@@ -17,7 +17,12 @@ deleted (C26); mutable container growth killed mid-way loses leases, as the code
 first range is unsatisfiable (C40); the repairer leaves corrupt shares in place (C45); `MutableFileVersion.modify()` retries
 after `UncoordinatedWriteError` by re-downloading the *stale* version it was created for, so under real contention the
 retry either fails (NotEnoughShares/KeyError) or re-applies the modifier to old contents - no listed property covers
-cross-client convergence of modify (C12 is about detection, C13 about one client).
+cross-client convergence of modify (C12 is about detection, C13 about one client);
+the mutable repairer downloads through a fresh MODE_READ servermap, so when every share of the best version lies beyond
+the first 2k servers of the permuted list while an older version is recoverable within them, an unforced repair of a
+recoverable file fails with UnrecoverableFileError (22 of the C14 spread layouts; C14 only constrains successful repairs);
+a second helper client whose `upload` call reaches the helper after the upload it was told to join has failed is handed
+that failure and has to retry (C44, counted as a resumed upload).
 """
 
 
